@@ -169,6 +169,8 @@ where
     /// variable, it is updated to the domain store.
     pub fn process_domain(self, x: &LTerm<U, E>, domain: Rc<FiniteDomain>) -> SResult<U, E> {
         match x.as_ref() {
+            // No value can be drawn from an empty domain.
+            _ if domain.is_empty() => Err(()),
             LTermInner::Var(_, _) => self.update_var_domain(x, domain),
             LTermInner::Val(LValue::Number(v)) if domain.contains(*v) => Ok(self),
             _ => Err(()),
